@@ -552,3 +552,8 @@ def check(ctx):
     # context object, the rule is not modified (= C07.STATELESS)
     from .c07 import check_stateless
     check_stateless(ctx, 'C08.STATELESS')
+    # a scope mismatch is reported whatever the policy's check string says:
+    # the texts of the gate's messages are built from constant templates
+    # (= C14.FORMAT)
+    from .c14 import check_format
+    ctx.borrow('C08.GATE', check_format, only=['C14.FORMAT'])
